@@ -263,4 +263,78 @@ theorem lexAll_spec : ∀ (f : Nat) (q : List QRn), q.length + 1 ≤ f →
     | panic => exact absurd hl hn.2.1
     | oof => exact absurd hl hn.1
 
+
+/-! ## a quoted literal is accepted only if an (unescaped) closing quote terminates it -/
+
+theorem splitAt_spec (c : Nat) (q inner after : List QRn) (h : splitAt c q = some (inner, after)) :
+    ∃ p, q = inner ++ p :: after ∧ p.r.cp = c := by
+  induction q generalizing inner with
+  | nil => simp [splitAt] at h
+  | cons x t ih =>
+    simp only [splitAt] at h
+    split at h
+    · rename_i hx
+      simp only [Option.some.injEq, Prod.mk.injEq] at h
+      exact ⟨x, by rw [← h.1, ← h.2]; rfl, hx⟩
+    · cases hs : splitAt c t with
+      | none => rw [hs] at h; simp at h
+      | some pr =>
+        rw [hs] at h
+        simp only [Option.map_some, Option.some.injEq, Prod.mk.injEq] at h
+        obtain ⟨p, hp, hc⟩ := ih pr.1 (by rw [hs, ← h.2])
+        exact ⟨p, by rw [← h.1, hp]; rfl, hc⟩
+
+/-- the unquoting loop stops successfully only at a rune equal to the quote that it meets at an iteration boundary
+(i.e. not consumed as part of an escape sequence); what remains is exactly what follows that quote -/
+theorem unquoteLoop_closing (quote : Nat) : ∀ (f : Nat) (acc : List Rn) (q : List QRn) (out : List Rn) (rest : List QRn),
+    unquoteLoop quote f acc q = .ok (out, rest) → ∃ pre p, q = pre ++ p :: rest ∧ p.r.cp = quote := by
+  intro f
+  induction f with
+  | zero => intro acc q out rest h; cases q <;> simp [unquoteLoop] at h
+  | succ f ih =>
+    intro acc q out rest h
+    cases q with
+    | nil => simp [unquoteLoop] at h
+    | cons p tl =>
+      simp only [unquoteLoop] at h
+      split at h
+      · rename_i hp
+        simp only [PRes.ok.injEq, Prod.mk.injEq] at h
+        exact ⟨[], p, by rw [← h.2]; rfl, hp⟩
+      · split at h
+        · obtain ⟨pre, p', hq, hc⟩ := ih _ _ _ _ h
+          exact ⟨p :: pre, p', by rw [hq]; rfl, hc⟩
+        · rename_i ch k _
+          obtain ⟨pre, p', hq, hc⟩ := ih _ _ _ _ h
+          refine ⟨(p :: tl).take (max 1 k) ++ pre, p', ?_, hc⟩
+          rw [List.append_assoc, ← hq, List.take_append_drop]
+
+/-- **`unquotePrefix` accepts only terminated literals**: if it returns a token, the input is the opening quote, some
+runes, a closing rune equal to the opening quote, and then exactly the returned rest; with no such rune it is an error
+(`lexer.Next` then emits the quote character as a one-rune token, and the parsers reject it). -/
+theorem unquotePrefix_closing (h : QRn) (t : List QRn) (out : List Rn) (rest : List QRn)
+    (hok : unquotePrefix (h :: t) = .ok (out, rest)) : ∃ pre p, t = pre ++ p :: rest ∧ p.r.cp = h.r.cp := by
+  simp only [unquotePrefix] at hok
+  cases hs : splitAt h.r.cp t with
+  | none => rw [hs] at hok; simp at hok
+  | some pr =>
+    obtain ⟨inner, after⟩ := pr
+    rw [hs] at hok
+    simp only at hok
+    split at hok
+    · simp only [PRes.ok.injEq, Prod.mk.injEq] at hok
+      obtain ⟨p, hp, hc⟩ := splitAt_spec _ _ _ _ hs
+      exact ⟨inner, p, by rw [← hok.2]; exact hp, hc⟩
+    · exact unquoteLoop_closing _ _ _ _ _ _ hok
+
+theorem unquotePrefix_no_quote (h : QRn) (t : List QRn) (hn : ∀ x, x ∈ t → x.r.cp ≠ h.r.cp) :
+    unquotePrefix (h :: t) = .err := by
+  have : splitAt h.r.cp t = none := by
+    induction t with
+    | nil => rfl
+    | cons x tl ih =>
+      simp only [splitAt, hn x (by simp), if_false]
+      rw [ih (fun y hy => hn y (by simp [hy]))]; rfl
+  simp [unquotePrefix, this]
+
 end SV.Parser
